@@ -627,8 +627,9 @@ func buildIRT(s relShape) []byte {
 type outlineShape struct {
 	n                        int
 	first, ilast, next, prev func(i int) int
-	rfirst, last             int  // the root's First (0: item 1) and Last
-	rt                       bool // the root also carries a title and a destination
+	parent                   func(i int) int // nil: every item names the root as its parent
+	rfirst, last             int             // the root's First (0: item 1) and Last
+	rt                       bool            // the root also carries a title and a destination
 }
 
 func buildOutline(o outlineShape) []byte {
@@ -656,7 +657,11 @@ func buildOutline(o outlineShape) []byte {
 		if o.ilast != nil {
 			l = o.ilast(i)
 		}
-		body := fmt.Sprintf("<< /Title (N%d) /Dest [%d 0 R /Fit] /Parent %d 0 R", i, pn[0], root) + r("First", f) + r("Last", l) + r("Next", o.next(i)) + r("Prev", o.prev(i))
+		par := fmt.Sprintf(" /Parent %d 0 R", root)
+		if o.parent != nil {
+			par = r("Parent", o.parent(i))
+		}
+		body := fmt.Sprintf("<< /Title (N%d) /Dest [%d 0 R /Fit]", i, pn[0]) + par + r("First", f) + r("Last", l) + r("Next", o.next(i)) + r("Prev", o.prev(i))
 		if f != tNone {
 			body += " /Count 1"
 		}
